@@ -28,6 +28,7 @@ package cache
 
 import (
 	"bytes"
+	"errors"
 	"sync"
 	"time"
 
@@ -54,6 +55,9 @@ const (
 
 // defaultHitForPassSeconds default hit for pass: 300 seconds
 const defaultHitForPassSeconds = 300
+
+// ErrInvalidStoreData the data of store is invalid
+var ErrInvalidStoreData = errors.New("data of store is invalid")
 
 type (
 	// httpCache http cache (only for same request method+host+uri)
@@ -193,7 +197,21 @@ func (hc *httpCache) initFromStore() (err error) {
 	if err != nil {
 		return
 	}
-	return hc.FromBytes(data)
+	// 先解析至临时对象，只有数据完整且状态有效（hit 或 hit for pass，且有过期时间）才使用，
+	// 避免异常数据导致缓存一直处于fetching（无请求处理）或永不过期
+	tmp := &httpCache{}
+	err = tmp.FromBytes(data)
+	if err != nil {
+		return
+	}
+	if (tmp.status != StatusHit && tmp.status != StatusHitForPass) || tmp.expiredAt == 0 {
+		return ErrInvalidStoreData
+	}
+	hc.status = tmp.status
+	hc.response = tmp.response
+	hc.createdAt = tmp.createdAt
+	hc.expiredAt = tmp.expiredAt
+	return
 }
 
 // saveToStore save cache to store
